@@ -350,7 +350,7 @@ func c04InstallCase(rt *rapid.T, rec *vstat.Rec) {
 
 	// ---- restart B in place
 	addrB := b.Addr()
-	if err := b.Close(true); err != nil {
+	if err := g8aClose(b); err != nil {
 		fail("C04/close-error", "close of the follower failed: %v", err)
 	}
 	b.ly.Close()
